@@ -88,7 +88,7 @@ func vmContext(skip, rev, nocall *big.Int) vm.Context {
 		GasLimit:    rootGas,
 		BlockNumber: new(big.Int).SetUint64(blockHeight),
 		Time:        nocall, // variant selector: call sites that are not executed at all
-		Difficulty:  skip, // variant selector
+		Difficulty:  skip,   // variant selector
 	}
 }
 
@@ -378,7 +378,7 @@ func comparePair(a *Node) *pairResult {
 	pr.D = diffRuns(ra, rb, uni)
 	if len(noEntry) > 0 {
 		pr.B0 = runTree(a, idMask(outer...), nil, idMask(noEntry...), uni)
-		pr.D0 = diffRunsEx(rb, pr.B0, uni, ex)
+		pr.D0 = diffRunsEx(rb, pr.B0, uni, ex, false)
 		pr.Entry = len(noEntry)
 	}
 	return pr
@@ -419,10 +419,10 @@ func (e *exempt) filterAccounts(l []string) []string {
 	return out
 }
 
-func diffRuns(ra, rb *runOut, uni []common.Address) diff { return diffRunsEx(ra, rb, uni, nil) }
+func diffRuns(ra, rb *runOut, uni []common.Address) diff { return diffRunsEx(ra, rb, uni, nil, true) }
 
-func diffRunsEx(ra, rb *runOut, uni []common.Address, ex *exempt) diff {
-	if ra.Err != rb.Err && ex == nil {
+func diffRunsEx(ra, rb *runOut, uni []common.Address, ex *exempt, cmpErr bool) diff {
+	if ra.Err != rb.Err && cmpErr {
 		return diff{"top-level-result", ra.Err, rb.Err}
 	}
 	if !sameStrings(ra.Logs, rb.Logs) {
@@ -608,12 +608,12 @@ type twinStats struct {
 type twinWitness struct {
 	Oracle   string `json:"oracle"`
 	EntryAll bool   `json:"entry_all,omitempty"`
-	Tree    *Node  `json:"tree"`
-	Minimal *Node  `json:"minimal,omitempty"`
-	Class   string `json:"class"`
-	InA     string `json:"in_A"`
-	InB     string `json:"in_B"`
-	Shape   string `json:"shape"`
+	Tree     *Node  `json:"tree"`
+	Minimal  *Node  `json:"minimal,omitempty"`
+	Class    string `json:"class"`
+	InA      string `json:"in_A"`
+	InB      string `json:"in_B"`
+	Shape    string `json:"shape"`
 }
 
 // judgeTree runs one twin case completely. Returns whether the pair was non-trivial.
@@ -623,7 +623,10 @@ func judgeTree(r *mon.Run, st *twinStats, t *Node, label string) (nontrivial boo
 	if r.Guard("C12:twin", map[string]interface{}{"oracle": "twin", "entry_all": entryAll, "tree": t}, func() { pr = comparePair(t) }) {
 		return false
 	}
-	expected, cells := planTrace(t)
+	expected, cells := planTrace(t, false)
+	if e2, c2 := planTrace(t, true); !sameStrings(expected, pr.A.Trace) && sameStrings(e2, pr.A.Trace) {
+		expected, cells = e2, c2
+	}
 	// a frame that was not planned to run out of gas did: gas skew, the pair is not judged
 	unexpectedOOG := func(exp, tr []string) bool {
 		e, got := 0, 0
@@ -640,7 +643,7 @@ func judgeTree(r *mon.Run, st *twinStats, t *Node, label string) (nontrivial boo
 		return got > e
 	}
 	bTree, _ := pruneTree(t)
-	expectedB, _ := planTrace(bTree)
+	expectedB, _ := planTrace(bTree, false)
 	if unexpectedOOG(expected, pr.A.Trace) || unexpectedOOG(expectedB, pr.B.Trace) {
 		r.Count("twin_discarded_gas_skew", 1)
 		if debugOn {
@@ -688,9 +691,6 @@ func judgeTree(r *mon.Run, st *twinStats, t *Node, label string) (nontrivial boo
 			for _, c := range cells {
 				if eff[c.OuterID] {
 					r.Count("cell_"+c.Kind+"_"+c.Mode, 1)
-					if c.ID == c.OuterID {
-						r.Count("cellouter_"+c.Kind+"_"+c.Mode, 1)
-					}
 				}
 			}
 			for _, d := range pr.Dead {
